@@ -1,4 +1,5 @@
 import RlModel.Lemmas.Exec
+import RlModel.Lemmas.ExecNull
 import RlModel.Lemmas.ExecSorted
 /-!
 C11 — all physical implementations of an operator agree.
@@ -114,86 +115,81 @@ theorem topn_eq_spec (n off : Nat) (ks : List OrderKey) (Xs : List Chunk) :
 example : flat (topNExec 2 1 [{ key := fun r => r.getD 0 .null, desc := true }] [[[.i32 1], [.i32 5]], [[.null], [.i32 3]]]) =
     [[.i32 3], [.i32 1]] := by decide
 
-/-! ## hash joins agree with nested-loop joins — exactly when keys are comparable -/
+/-! ## hash joins agree with nested-loop joins — when keys are comparable
 
-/-- FULL statement (false, see `hash_eq_nl_unsound_*`): for every input the hash join returns the
-bag of the nested-loop join on `lk = rk`.  Proved under the forced hypothesis `KeysComparable`. -/
+Since the `fix:` commit "a join key containing NULL never matches" the executors skip NULL keys like
+the spec; what remains forced is the same-type part of `KeysComparable` (Int32 vs Int64 keys). -/
+
+/-- with NO hypothesis: the hash join of every type returns the canonical bag `joinBag` (pairs whose
+NULL-free key vectors are structurally equal, padded unmatched left rows for left/full, padded
+unmatched right rows for right/full), for every chunking of both inputs. -/
+theorem hashjoin_is_joinBag (t : JoinType) (lk rk : List (Row → Val)) (nL nR : Nat) (Ls Rs : List Chunk) :
+    (flat (hashJoin t lk rk nL nR Ls Rs)).Perm
+      (joinBag (t == .leftOuter || t == .fullOuter) (t == .rightOuter || t == .fullOuter) lk rk nL nR (flat Ls) (flat Rs)) :=
+  hashjoin_perm t lk rk nL nR Ls Rs
+
+/-- FULL statement (false, see `hash_eq_nl_unsound_int_width`): for every input the hash join returns
+the bag of the nested-loop join on `lk = rk`.  Proved under the forced hypothesis `KeysComparable`. -/
 theorem hash_eq_nl_inner (lk rk : List (Row → Val)) (nL nR : Nat) (Ls Rs : List Chunk)
     (hlen : ∀ l ∈ flat Ls, l.length = nL) (hk : KeysComparable lk rk (flat Ls) (flat Rs)) :
     (flat (hashJoin .inner lk rk nL nR Ls Rs)).Perm
       (flat (nlJoin false (equiOn nL lk rk (fun _ => some true)) nR Ls Rs)) :=
-  (hash_eq_spec_inner_partial lk rk nL nR Ls Rs hlen hk).trans
+  (hash_eq_spec_partial .inner (Or.inl rfl) lk rk nL nR Ls Rs hlen hk).trans
     (nl_eq_spec_inner (equiOn nL lk rk (fun _ => some true)) nL nR Ls Rs).symm
+
+/-- LEFT OUTER: hash join (matched flags per key, unmatched tail) = nested-loop join (bitmap pass). -/
+theorem hash_eq_nl_left_outer (lk rk : List (Row → Val)) (nL nR : Nat) (Ls Rs : List Chunk)
+    (hlen : ∀ l ∈ flat Ls, l.length = nL) (hk : KeysComparable lk rk (flat Ls) (flat Rs)) :
+    (flat (hashJoin .leftOuter lk rk nL nR Ls Rs)).Perm
+      (flat (nlJoin true (equiOn nL lk rk (fun _ => some true)) nR Ls Rs)) :=
+  (hash_eq_spec_partial .leftOuter (Or.inr (Or.inl rfl)) lk rk nL nR Ls Rs hlen hk).trans
+    (nl_eq_spec_left_outer (equiOn nL lk rk (fun _ => some true)) nL nR Ls Rs).symm
+
+/-- RIGHT / FULL OUTER (no nested-loop executor exists: `todo!()`): hash join = the spec's join. -/
+theorem hash_eq_spec_right_outer (lk rk : List (Row → Val)) (nL nR : Nat) (Ls Rs : List Chunk)
+    (hlen : ∀ l ∈ flat Ls, l.length = nL) (hk : KeysComparable lk rk (flat Ls) (flat Rs)) :
+    (flat (hashJoin .rightOuter lk rk nL nR Ls Rs)).Perm
+      (joinRel .rightOuter (equiOn nL lk rk (fun _ => some true)) nL nR (flat Ls) (flat Rs)) :=
+  hash_eq_spec_partial .rightOuter (Or.inr (Or.inr (Or.inl rfl))) lk rk nL nR Ls Rs hlen hk
+
+theorem hash_eq_spec_full_outer (lk rk : List (Row → Val)) (nL nR : Nat) (Ls Rs : List Chunk)
+    (hlen : ∀ l ∈ flat Ls, l.length = nL) (hk : KeysComparable lk rk (flat Ls) (flat Rs)) :
+    (flat (hashJoin .fullOuter lk rk nL nR Ls Rs)).Perm
+      (joinRel .fullOuter (equiOn nL lk rk (fun _ => some true)) nL nR (flat Ls) (flat Rs)) :=
+  hash_eq_spec_partial .fullOuter (Or.inr (Or.inr (Or.inr rfl))) lk rk nL nR Ls Rs hlen hk
 
 theorem hash_eq_nl_semi (lk rk : List (Row → Val)) (nL : Nat) (Ls Rs : List Chunk)
     (hlen : ∀ l ∈ flat Ls, l.length = nL) (hk : KeysComparable lk rk (flat Ls) (flat Rs)) :
     flat (hashSemiJoin false lk rk Ls Rs) =
       flat (nlSemiJoin false (equiOn nL lk rk (fun _ => some true)) Ls Rs) := by
-  rw [hash_semi_eq_spec_partial lk rk nL Ls Rs hlen hk, nl_eq_spec_semi _ nL 0]; rfl
+  rw [hash_semi_eq_spec_N false lk rk nL Ls Rs hlen hk, nl_eq_spec_semi _ nL 0]
+  unfold joinRel semiJoin
+  apply List.filter_congr
+  intro l _; simp
 
 theorem hash_eq_nl_anti (lk rk : List (Row → Val)) (nL : Nat) (Ls Rs : List Chunk)
     (hlen : ∀ l ∈ flat Ls, l.length = nL) (hk : KeysComparable lk rk (flat Ls) (flat Rs)) :
     flat (hashSemiJoin true lk rk Ls Rs) =
       flat (nlSemiJoin true (equiOn nL lk rk (fun _ => some true)) Ls Rs) := by
-  rw [hash_anti_eq_spec_partial lk rk nL Ls Rs hlen hk, nl_eq_spec_anti _ nL 0]; rfl
-
-/-- RIGHT OUTER: there is no nested-loop executor to compare with (`todo!()`), the statement is
-against the spec's right outer join. -/
-theorem hash_eq_spec_right_outer (lk rk : List (Row → Val)) (nL nR : Nat) (Ls Rs : List Chunk)
-    (hlen : ∀ l ∈ flat Ls, l.length = nL) (hk : KeysComparable lk rk (flat Ls) (flat Rs)) :
-    (flat (hashJoin .rightOuter lk rk nL nR Ls Rs)).Perm
-      (joinRel .rightOuter (equiOn nL lk rk (fun _ => some true)) nL nR (flat Ls) (flat Rs)) :=
-  hash_eq_spec_right_outer_partial lk rk nL nR Ls Rs hlen hk
-
-/-- LEFT OUTER: hash join (matched flags per key, unmatched tail) = nested-loop join (bitmap pass)
-under KeysComparable. -/
-theorem hash_eq_nl_left_outer (lk rk : List (Row → Val)) (nL nR : Nat) (Ls Rs : List Chunk)
-    (hlen : ∀ l ∈ flat Ls, l.length = nL) (hk : KeysComparable lk rk (flat Ls) (flat Rs)) :
-    (flat (hashJoin .leftOuter lk rk nL nR Ls Rs)).Perm
-      (flat (nlJoin true (equiOn nL lk rk (fun _ => some true)) nR Ls Rs)) :=
-  (hash_eq_spec_left_outer_partial lk rk nL nR Ls Rs hlen hk).trans
-    (nl_eq_spec_left_outer (equiOn nL lk rk (fun _ => some true)) nL nR Ls Rs).symm
-
-/-- FULL OUTER (no nested-loop executor exists): hash join = the spec's full outer join. -/
-theorem hash_eq_spec_full_outer (lk rk : List (Row → Val)) (nL nR : Nat) (Ls Rs : List Chunk)
-    (hlen : ∀ l ∈ flat Ls, l.length = nL) (hk : KeysComparable lk rk (flat Ls) (flat Rs)) :
-    (flat (hashJoin .fullOuter lk rk nL nR Ls Rs)).Perm
-      (joinRel .fullOuter (equiOn nL lk rk (fun _ => some true)) nL nR (flat Ls) (flat Rs)) :=
-  hash_eq_spec_full_outer_partial lk rk nL nR Ls Rs hlen hk
-
-/-- without any hypothesis: the inner hash join returns the pairs whose key vectors are
-STRUCTURALLY equal (`DataValue`'s derived `Eq`), for every chunking of both inputs. -/
-theorem hashjoin_inner_structural (lk rk : List (Row → Val)) (nL nR : Nat) (Ls Rs : List Chunk) :
-    (flat (hashJoin .inner lk rk nL nR Ls Rs)).Perm
-      ((flat Ls).flatMap (fun l => ((flat Rs).filter (fun r => keyOf lk l == keyOf rk r)).map (l ++ ·))) :=
-  hashjoin_inner_rows lk rk nL nR Ls Rs
-
-/-- … hence it does not depend on the chunk boundaries of its inputs. -/
-theorem chunking_irrelevant_hashjoin_inner (lk rk : List (Row → Val)) (nL nR k k' : Nat) (Ls Rs : List Chunk) :
-    (flat (hashJoin .inner lk rk nL nR (rechunk k Ls) (rechunk k' Rs))).Perm
-      (flat (hashJoin .inner lk rk nL nR Ls Rs)) := by
-  have hr : ∀ k (Xs : List Chunk), flat (rechunk k Xs) = flat Xs := by
-    intro k Xs; unfold rechunk; split
-    · simp [flat]
-    · rw [builder_flat]; rfl
-  refine (hashjoin_inner_rows lk rk nL nR _ _).trans ?_
-  rw [hr, hr]
-  exact (hashjoin_inner_rows lk rk nL nR Ls Rs).symm
+  rw [hash_semi_eq_spec_N true lk rk nL Ls Rs hlen hk, nl_eq_spec_anti _ nL 0]
+  unfold joinRel antiJoin
+  apply List.filter_congr
+  intro l _
+  cases (matchesOf (equiOn nL lk rk fun _ => some true) l (flat Rs)).isEmpty <;> rfl
 
 def col0 : Row → Val := fun r => r.getD 0 .null
 
-/-- the hypothesis is satisfiable by non-trivial data (duplicates, non-matching rows) … -/
-example : KeysComparable [col0] [col0] [[.i32 1], [.i32 2], [.i32 1]] [[.i32 1], [.i32 3]] := by
+/-- NULL keys satisfy the hypothesis by themselves: it only has to be checked on NULL-free keys … -/
+theorem keysComparable_null_free (lk rk : List (Row → Val)) (L R : List Row)
+    (h : ∀ l ∈ L, ∀ r ∈ R, hasNullKey (keyOf lk l) = false → hasNullKey (keyOf rk r) = false →
+      (keyOf lk l == keyOf rk r) = holds (keysEq3 (keyOf lk l) (keyOf rk r))) :
+    KeysComparable lk rk L R := keysComparable_of_null_free lk rk L R h
+
+/-- … e.g. data with NULL keys, duplicates and non-matching rows on both sides … -/
+example : KeysComparable [col0] [col0] [[.i32 1], [.null], [.i32 1]] [[.null], [.i32 1], [.i32 3]] := by
   unfold KeysComparable; decide
 
-/-- … and it is forced: NULL keys break it, and then hash and nested-loop joins differ. -/
-theorem hash_eq_nl_unsound_null_key :
-    ¬ (∀ (Ls Rs : List Chunk), (flat (hashJoin .inner [col0] [col0] 1 1 Ls Rs)).Perm
-        (flat (nlJoin false (equiOn 1 [col0] [col0] (fun _ => some true)) 1 Ls Rs))) := by
-  intro h
-  have := (h [[[.null]]] [[[.null]]]).length_eq
-  revert this; decide
-
+/-- … and the rest of it is forced: Int32 and Int64 keys are SQL-equal but never structurally equal. -/
 theorem hash_eq_nl_unsound_int_width :
     ¬ (∀ (Ls Rs : List Chunk), (flat (hashJoin .inner [col0] [col0] 1 1 Ls Rs)).Perm
         (flat (nlJoin false (equiOn 1 [col0] [col0] (fun _ => some true)) 1 Ls Rs))) := by
@@ -201,20 +197,26 @@ theorem hash_eq_nl_unsound_int_width :
   have := (h [[[.i32 1]]] [[[.i64 1]]]).length_eq
   revert this; decide
 
-theorem hash_anti_unsound_null_key :
-    ¬ (∀ (Ls Rs : List Chunk), flat (hashSemiJoin true [col0] [col0] Ls Rs) =
-        flat (nlSemiJoin true (equiOn 1 [col0] [col0] (fun _ => some true)) Ls Rs)) := by
-  intro h
-  have := h [[[.null]]] [[[.null]]]
-  revert this; decide
+/-! Regression inputs: the witnesses of the former `*_unsound_null_key` theorems.  Before the fix the
+hash / merge executors joined `NULL` with `NULL`; now they agree with the nested loop on them. -/
 
-/-- merge join has the same defect (adjacent groups are compared with `==`). -/
-theorem merge_eq_nl_unsound_null_key :
-    ¬ (∀ (Ls Rs : List Chunk), (flat (mergeJoin .inner [col0] [col0] 1 1 Ls Rs)).Perm
-        (flat (nlJoin false (equiOn 1 [col0] [col0] (fun _ => some true)) 1 Ls Rs))) := by
-  intro h
-  have := (h [[[.null]]] [[[.null]]]).length_eq
-  revert this; decide
+theorem hashjoin_null_key_regression :
+    flat (hashJoin .inner [col0] [col0] 1 1 [[[.null]]] [[[.null]]]) =
+      flat (nlJoin false (equiOn 1 [col0] [col0] (fun _ => some true)) 1 [[[.null]]] [[[.null]]]) ∧
+    flat (hashJoin .fullOuter [col0] [col0] 1 1 [[[.null]]] [[[.null]]]) = [[.null, .null], [.null, .null]] := by
+  decide
+
+theorem hash_anti_null_key_regression :
+    flat (hashSemiJoin true [col0] [col0] [[[.null]]] [[[.null]]]) =
+      flat (nlSemiJoin true (equiOn 1 [col0] [col0] (fun _ => some true)) [[[.null]]] [[[.null]]]) := by
+  decide
+
+theorem mergejoin_null_key_regression :
+    flat (mergeJoin .inner [col0] [col0] 1 1 [[[.null]]] [[[.null]]]) =
+      flat (nlJoin false (equiOn 1 [col0] [col0] (fun _ => some true)) 1 [[[.null]]] [[[.null]]]) ∧
+    (flat (mergeJoin .fullOuter [col0] [col0] 1 1 [[[.null], [.i32 1]]] [[[.null], [.i32 1]]])).Perm
+      [[.null, .null], [.null, .null], [.i32 1, .i32 1]] := by
+  constructor <;> decide
 
 /-! ## aggregation: the two accumulation paths -/
 
@@ -717,105 +719,6 @@ theorem lookupG_cons_ne (k rk : List Val) (rrows : List Row) (rs : List KGroup) 
     lookupG k ((rk, rrows) :: rs) = lookupG k rs := by
   unfold lookupG; simp [List.find?_cons, h]
 
-/-- what one left group contributes. -/
-def mergeF (pl : Bool) (nR : Nat) (rg : List KGroup) (g : KGroup) : List Row :=
-  match lookupG g.1 rg with
-  | some rrows => crossLR g.2 rrows
-  | none => if pl then g.2.map (· ++ nulls nR) else []
-
-/-- THE merge walk (inner / left outer: nothing is emitted for unmatched right groups): over two
-strictly increasing group streams the loop emits, left group by left group, the cross product with
-the right group of the same key, or the padded left rows when there is none. -/
-theorem mergeLoop_left (pl : Bool) (nL nR : Nat) :
-    ∀ (fuel : Nat) (lg rg : List KGroup), StrictInc lg → StrictInc rg → lg.length + rg.length ≤ fuel →
-      mergeLoop pl false nL nR fuel lg rg = lg.flatMap (mergeF pl nR rg) := by
-  intro fuel
-  induction fuel with
-  | zero =>
-    intro lg rg _ _ h
-    have h1 : lg = [] := List.eq_nil_of_length_eq_zero (by omega)
-    subst h1; simp [mergeLoop]
-  | succ fuel ih =>
-    intro lg rg hl hr hf
-    cases lg with
-    | nil =>
-      cases rg with
-      | nil => simp [mergeLoop]
-      | cons r rs =>
-        obtain ⟨rk, rrows⟩ := r
-        unfold mergeLoop
-        simp only [Bool.false_eq_true, if_false, List.nil_append, List.flatMap_nil]
-        have hr' : StrictInc rs := by
-          unfold StrictInc at hr ⊢; rw [List.map_cons, List.pairwise_cons] at hr; exact hr.2
-        have := ih [] rs hl hr' (by simp at hf ⊢; omega)
-        simpa using this
-    | cons l ls =>
-      obtain ⟨lk, lrows⟩ := l
-      have hl' : StrictInc ls := by
-        unfold StrictInc at hl ⊢; rw [List.map_cons, List.pairwise_cons] at hl; exact hl.2
-      have hlgt : ∀ g ∈ ls, rowCmp lk g.1 = .lt := by
-        intro g hg
-        unfold StrictInc at hl; rw [List.map_cons, List.pairwise_cons] at hl
-        exact hl.1 g.1 (List.mem_map_of_mem hg)
-      cases rg with
-      | nil =>
-        unfold mergeLoop
-        simp only [List.flatMap_cons]
-        rw [ih ls [] hl' hr (by simp at hf ⊢; omega)]
-        simp [mergeF, lookupG]
-      | cons r rs =>
-        obtain ⟨rk, rrows⟩ := r
-        have hr' : StrictInc rs := by
-          unfold StrictInc at hr ⊢; rw [List.map_cons, List.pairwise_cons] at hr; exact hr.2
-        unfold mergeLoop
-        simp only [List.flatMap_cons]
-        by_cases heq : lk == rk
-        · have e : lk = rk := eq_of_beq heq
-          simp only [heq, if_true]
-          rw [ih ls rs hl' hr' (by simp at hf ⊢; omega)]
-          have h1 : mergeF pl nR ((rk, rrows) :: rs) (lk, lrows) = crossLR lrows rrows := by
-            unfold mergeF lookupG
-            have : (rk == lk) = true := by rw [e]; exact BEq.rfl
-            simp [List.find?_cons, this]
-          rw [h1]
-          congr 1
-          apply flatMap_congr'
-          intro g hg
-          unfold mergeF
-          rw [lookupG_cons_ne g.1 rk rrows rs (by rw [← e]; exact rowCmp_lt_ne (hlgt g hg))]
-        · simp only [heq, Bool.false_eq_true, if_false]
-          cases hc : rowCmp lk rk with
-          | lt =>
-            simp only [beq_self_eq_true, if_true]
-            rw [ih ls ((rk, rrows) :: rs) hl' hr (by simp at hf ⊢; omega)]
-            have h1 : mergeF pl nR ((rk, rrows) :: rs) (lk, lrows) = if pl then lrows.map (· ++ nulls nR) else [] := by
-              unfold mergeF
-              rw [lookupG_none_of_lt lk rk rrows rs hr hc]
-            rw [h1]
-          | gt =>
-            have hne : (Ordering.gt == Ordering.lt) = false := rfl
-            simp only [hne, Bool.false_eq_true, if_false, beq_self_eq_true, if_true, List.nil_append]
-            rw [ih ((lk, lrows) :: ls) rs hl hr' (by simp at hf ⊢; omega)]
-            simp only [List.flatMap_cons]
-            have hrk : rowCmp rk lk = .lt := by
-              have := rowCmp_swap lk rk; rw [hc] at this; simpa using this
-            have hcong : ∀ g ∈ (lk, lrows) :: ls, mergeF pl nR rs g = mergeF pl nR ((rk, rrows) :: rs) g := by
-              intro g hg
-              unfold mergeF
-              have hlt : rowCmp rk g.1 = .lt := by
-                rcases List.mem_cons.mp hg with rfl | hg'
-                · exact hrk
-                · exact rowCmp_trans hrk (hlgt g hg')
-              rw [lookupG_cons_ne g.1 rk rrows rs (rowCmp_lt_ne hlt)]
-            rw [hcong _ List.mem_cons_self]
-            congr 1
-            apply flatMap_congr'
-            intro g hg
-            exact hcong g (List.mem_cons_of_mem _ hg)
-          | eq =>
-            exact absurd (by rw [(rowCmp_eq_iff lk rk).mp hc]; exact BEq.rfl) heq
-
-
 theorem beq_comm' {α} [BEq α] [LawfulBEq α] (a b : α) : (a == b) = (b == a) := by
   cases h : a == b
   · cases h2 : b == a
@@ -873,61 +776,6 @@ theorem crossLR_nil_right (ls : List Row) : crossLR ls [] = [] := by
   | nil => rfl
   | cons l ls ih => simp [ih]
 
-/-- inner merge join over sorted inputs, as a list: group by group of the left side, the cross
-product with the right rows of the same key. -/
-theorem mergejoin_inner_sorted (lk rk : List (Row → Val)) (hlk : lk ≠ []) (hrk : rk ≠ []) (nL nR : Nat)
-    (Ls Rs : List Chunk)
-    (hsl : SortedBy rowCmp ((flat Ls).map (keyOf lk))) (hsr : SortedBy rowCmp ((flat Rs).map (keyOf rk))) :
-    flat (mergeJoin .inner lk rk nL nR Ls Rs) =
-      (dedup ((flat Ls).map (keyOf lk))).flatMap (fun k =>
-        crossLR ((flat Ls).filter (fun l => keyOf lk l == k)) ((flat Rs).filter (fun r => keyOf rk r == k))) := by
-  unfold mergeJoin
-  simp only [show (JoinType.inner == JoinType.rightOuter || JoinType.inner == JoinType.fullOuter) = false from rfl,
-    show (JoinType.inner == JoinType.leftOuter || JoinType.inner == JoinType.fullOuter) = false from rfl]
-  rw [flat_emit, mergejoin_groups_sorted lk hlk _ hsl, mergejoin_groups_sorted rk hrk _ hsr]
-  rw [mergeLoop_left false nL nR _ _ _ (strictInc_groups _ _ _ hsl) (strictInc_groups _ _ _ hsr) (Nat.le_succ _)]
-  rw [List.flatMap_map]
-  apply flatMap_congr'
-  intro k _
-  simp only [Function.comp, mergeF]
-  rw [lookupG_groups]
-  by_cases hc : ((flat Rs).map (keyOf rk)).contains k
-  · rw [if_pos hc]
-  · rw [if_neg hc]
-    simp only [Bool.false_eq_true, if_false]
-    have : (flat Rs).filter (fun r => keyOf rk r == k) = [] := by
-      rw [List.filter_eq_nil_iff]
-      intro r hr hrk'
-      apply hc
-      rw [List.contains_iff_mem, ← eq_of_beq hrk']
-      exact List.mem_map_of_mem hr
-    rw [this, crossLR_nil_right]
-
-/-- `merge_eq_hash` (inner): on inputs sorted by their (non-empty) key lists the merge join returns
-the same bag as the hash join — NULL keys and mixed-width keys included (both use structural
-equality of the key vectors). -/
-theorem merge_eq_hash_inner (lk rk : List (Row → Val)) (hlk : lk ≠ []) (hrk : rk ≠ []) (nL nR : Nat)
-    (Ls Rs : List Chunk)
-    (hsl : SortedBy rowCmp ((flat Ls).map (keyOf lk))) (hsr : SortedBy rowCmp ((flat Rs).map (keyOf rk))) :
-    (flat (mergeJoin .inner lk rk nL nR Ls Rs)).Perm (flat (hashJoin .inner lk rk nL nR Ls Rs)) := by
-  rw [mergejoin_inner_sorted lk rk hlk hrk nL nR Ls Rs hsl hsr]
-  refine Perm.trans ?_ (hashjoin_inner_rows lk rk nL nR Ls Rs).symm
-  -- regroup the left rows by key
-  have hg := group_perm (keyOf lk) (flat Ls)
-  refine Perm.trans (Perm.of_eq ?_) (Perm.flatMap_right
-    (fun l => ((flat Rs).filter (fun r => keyOf lk l == keyOf rk r)).map (l ++ ·)) hg)
-  rw [List.flatMap_assoc]
-  apply flatMap_congr'
-  intro k _
-  unfold crossLR
-  apply flatMap_congr'
-  intro l hl
-  have hkl : keyOf lk l = k := eq_of_beq (List.mem_filter.mp hl).2
-  congr 1
-  apply List.filter_congr
-  intro r _
-  rw [hkl, beq_comm']
-
 theorem flatMap_ite_filter {α β} (c : α → Bool) (g : α → List β) (D : List α) :
     D.flatMap (fun k => if c k then g k else []) = (D.filter c).flatMap g := by
   induction D with
@@ -938,107 +786,6 @@ theorem flatMap_ite_filter {α β} (c : α → Bool) (g : α → List β) (D : L
     · simp only [Bool.false_eq_true, if_false, List.nil_append]; exact ih
     · simp only [if_true, List.flatMap_cons]; rw [ih]
 
-theorem regroup_inner (lk rk : List (Row → Val)) (L R : List Row) :
-    ((dedup (L.map (keyOf lk))).flatMap (fun k =>
-        crossLR (L.filter (fun l => keyOf lk l == k)) (R.filter (fun r => keyOf rk r == k)))).Perm
-      (L.flatMap (fun l => (R.filter (fun r => keyOf lk l == keyOf rk r)).map (l ++ ·))) := by
-  have hg := group_perm (keyOf lk) L
-  refine Perm.trans (Perm.of_eq ?_) (Perm.flatMap_right
-    (fun l => (R.filter (fun r => keyOf lk l == keyOf rk r)).map (l ++ ·)) hg)
-  rw [List.flatMap_assoc]
-  apply flatMap_congr'
-  intro k _
-  unfold crossLR
-  apply flatMap_congr'
-  intro l hl
-  have hkl : keyOf lk l = k := eq_of_beq (List.mem_filter.mp hl).2
-  congr 1
-  apply List.filter_congr
-  intro r _
-  rw [hkl, beq_comm']
-
-/-- `merge_eq_hash` (left outer). -/
-theorem merge_eq_hash_left_outer (lk rk : List (Row → Val)) (hlk : lk ≠ []) (hrk : rk ≠ []) (nL nR : Nat)
-    (Ls Rs : List Chunk)
-    (hsl : SortedBy rowCmp ((flat Ls).map (keyOf lk))) (hsr : SortedBy rowCmp ((flat Rs).map (keyOf rk))) :
-    (flat (mergeJoin .leftOuter lk rk nL nR Ls Rs)).Perm (flat (hashJoin .leftOuter lk rk nL nR Ls Rs)) := by
-  -- hash side
-  have hh : (flat (hashJoin .leftOuter lk rk nL nR Ls Rs)).Perm
-      ((flat Ls).flatMap (fun l => ((flat Rs).filter (fun r => keyOf lk l == keyOf rk r)).map (l ++ ·)) ++
-       ((flat Ls).filter (fun l => ((flat Rs).filter (fun r => keyOf lk l == keyOf rk r)).isEmpty)).map (· ++ nulls nR)) := by
-    unfold hashJoin
-    simp only [show (JoinType.leftOuter == JoinType.rightOuter || JoinType.leftOuter == JoinType.fullOuter) = false from rfl,
-      show (JoinType.leftOuter == JoinType.leftOuter || JoinType.leftOuter == JoinType.fullOuter) = true from rfl, if_true]
-    rw [flat_emit]
-    have h1 := probe_out_perm false lk rk nL (flat Ls) (flat Rs)
-    have h2 := hashjoin_rest_perm false lk rk nL nR (flat Ls) (flat Rs)
-    simp only [Bool.false_eq_true, if_false, List.append_nil] at h1
-    exact Perm.append h1 h2
-  refine Perm.trans ?_ hh.symm
-  -- merge side
-  unfold mergeJoin
-  simp only [show (JoinType.leftOuter == JoinType.rightOuter || JoinType.leftOuter == JoinType.fullOuter) = false from rfl,
-    show (JoinType.leftOuter == JoinType.leftOuter || JoinType.leftOuter == JoinType.fullOuter) = true from rfl]
-  rw [flat_emit, mergejoin_groups_sorted lk hlk _ hsl, mergejoin_groups_sorted rk hrk _ hsr]
-  rw [mergeLoop_left true nL nR _ _ _ (strictInc_groups _ _ _ hsl) (strictInc_groups _ _ _ hsr) (Nat.le_succ _)]
-  rw [List.flatMap_map]
-  have hsplit : (dedup ((flat Ls).map (keyOf lk))).flatMap
-        ((mergeF true nR ((dedup ((flat Rs).map (keyOf rk))).map (fun k => (k, (flat Rs).filter (fun x => keyOf rk x == k))))) ∘
-          fun k => (k, (flat Ls).filter (fun x => keyOf lk x == k))) =
-      (dedup ((flat Ls).map (keyOf lk))).flatMap (fun k =>
-        crossLR ((flat Ls).filter (fun l => keyOf lk l == k)) ((flat Rs).filter (fun r => keyOf rk r == k)) ++
-        (if ((flat Rs).filter (fun r => keyOf rk r == k)).isEmpty
-          then ((flat Ls).filter (fun l => keyOf lk l == k)).map (· ++ nulls nR) else [])) := by
-    apply flatMap_congr'
-    intro k _
-    simp only [Function.comp, mergeF]
-    rw [lookupG_groups]
-    by_cases hc : ((flat Rs).map (keyOf rk)).contains k
-    · rw [if_pos hc]
-      have hne : ((flat Rs).filter (fun r => keyOf rk r == k)).isEmpty = false := by
-        rw [List.contains_iff_mem] at hc
-        obtain ⟨r, hr, hrk'⟩ := List.mem_map.mp hc
-        cases hf : (flat Rs).filter (fun r => keyOf rk r == k) with
-        | nil =>
-          have : r ∈ (flat Rs).filter (fun r => keyOf rk r == k) := List.mem_filter.mpr ⟨hr, by rw [hrk']; exact BEq.rfl⟩
-          rw [hf] at this; cases this
-        | cons _ _ => rfl
-      simp [hne]
-    · rw [if_neg hc]
-      have : (flat Rs).filter (fun r => keyOf rk r == k) = [] := by
-        rw [List.filter_eq_nil_iff]
-        intro r hr hrk'
-        apply hc
-        rw [List.contains_iff_mem, ← eq_of_beq hrk']
-        exact List.mem_map_of_mem hr
-      simp [this, crossLR_nil_right]
-  refine (Perm.of_eq hsplit).trans ?_
-  refine (flatMap_append_perm _ _ _).trans ?_
-  refine Perm.append (regroup_inner lk rk (flat Ls) (flat Rs)) ?_
-  -- padded groups
-  have e2 : (dedup ((flat Ls).map (keyOf lk))).flatMap (fun k =>
-        if ((flat Rs).filter (fun r => keyOf rk r == k)).isEmpty
-          then ((flat Ls).filter (fun l => keyOf lk l == k)).map (· ++ nulls nR) else []) =
-      (((dedup ((flat Ls).map (keyOf lk))).filter (fun k => ((flat Rs).filter (fun r => keyOf rk r == k)).isEmpty)).flatMap
-        (fun k => (flat Ls).filter (fun l => keyOf lk l == k))).map (· ++ nulls nR) := by
-    rw [List.map_flatMap]
-    exact flatMap_ite_filter (fun k => ((flat Rs).filter (fun r => keyOf rk r == k)).isEmpty)
-      (fun k => ((flat Ls).filter (fun l => keyOf lk l == k)).map (· ++ nulls nR)) _
-  rw [e2]
-  refine (Perm.map _ (group_perm_filter (keyOf lk) (fun k => ((flat Rs).filter (fun r => keyOf rk r == k)).isEmpty) (flat Ls))).trans (Perm.of_eq ?_)
-  congr 1
-  apply List.filter_congr
-  intro l _
-  congr 1
-  apply List.filter_congr
-  intro r _
-  rw [beq_comm']
-
-
-/-- what the unmatched right groups contribute (right / full outer). -/
-def mergeR (pr : Bool) (nL : Nat) (lg rg : List KGroup) : List Row :=
-  if pr then (rg.filter (fun h => !(lg.any (fun g => g.1 == h.1)))).flatMap (fun h => h.2.map (nulls nL ++ ·)) else []
-
 theorem strictInc_tail {g : KGroup} {gs : List KGroup} (h : StrictInc (g :: gs)) : StrictInc gs := by
   unfold StrictInc at h ⊢; rw [List.map_cons, List.pairwise_cons] at h; exact h.2
 
@@ -1047,6 +794,35 @@ theorem strictInc_head_lt {k : List Val} {rows : List Row} {gs : List KGroup} (h
   intro g hg
   unfold StrictInc at h; rw [List.map_cons, List.pairwise_cons] at h
   exact h.1 g.1 (List.mem_map_of_mem hg)
+
+
+/-- what one left group contributes: the cross product with the right group of the same key, or the
+padded rows when there is none — a group whose key contains NULL never has a partner. -/
+def mergeF (pl : Bool) (nR : Nat) (rg : List KGroup) (g : KGroup) : List Row :=
+  if hasNullKey g.1 then (if pl then g.2.map (· ++ nulls nR) else [])
+  else match lookupG g.1 rg with
+    | some rrows => crossLR g.2 rrows
+    | none => if pl then g.2.map (· ++ nulls nR) else []
+
+/-- what the unmatched right groups contribute (right / full outer). -/
+def mergeR (pr : Bool) (nL : Nat) (lg rg : List KGroup) : List Row :=
+  if pr then (rg.filter (fun h => hasNullKey h.1 || !(lg.any (fun g => g.1 == h.1)))).flatMap
+    (fun h => h.2.map (nulls nL ++ ·)) else []
+
+theorem mergeF_unmatched (pl : Bool) (nR : Nat) (rg : List KGroup) (g : KGroup)
+    (h : hasNullKey g.1 = true ∨ lookupG g.1 rg = none) :
+    mergeF pl nR rg g = if pl then g.2.map (· ++ nulls nR) else [] := by
+  unfold mergeF
+  cases hn : hasNullKey g.1
+  · rcases h with h | h
+    · rw [hn] at h; cases h
+    · simp [h]
+  · simp
+
+theorem mergeF_cons_ne (pl : Bool) (nR : Nat) (rk : List Val) (rrows : List Row) (rs : List KGroup) (g : KGroup)
+    (h : (rk == g.1) = false) : mergeF pl nR ((rk, rrows) :: rs) g = mergeF pl nR rs g := by
+  unfold mergeF
+  rw [lookupG_cons_ne g.1 rk rrows rs h]
 
 theorem mergeR_congr_left (pr : Bool) (nL : Nat) (lg lg' rg : List KGroup)
     (h : ∀ hh ∈ rg, lg.any (fun g => g.1 == hh.1) = lg'.any (fun g => g.1 == hh.1)) :
@@ -1060,7 +836,9 @@ theorem mergeR_congr_left (pr : Bool) (nL : Nat) (lg lg' rg : List KGroup)
     intro hh hm
     rw [h hh hm]
 
-/-- the merge walk for all four join types, as a bag. -/
+/-- THE merge walk, all four join types, as a bag: over two strictly increasing group streams the
+loop emits, per left group, the cross product with the right group of the same NULL-free key or the
+padded left rows, and the padded right groups that found no partner. -/
 theorem mergeLoop_perm (pl pr : Bool) (nL nR : Nat) :
     ∀ (fuel : Nat) (lg rg : List KGroup), StrictInc lg → StrictInc rg → lg.length + rg.length ≤ fuel →
       (mergeLoop pl pr nL nR fuel lg rg).Perm (lg.flatMap (mergeF pl nR rg) ++ mergeR pr nL lg rg) := by
@@ -1095,8 +873,8 @@ theorem mergeLoop_perm (pl pr : Bool) (nL nR : Nat) :
         unfold mergeLoop
         have := ih ls [] hl' hr (by simp at hf ⊢; omega)
         simp only [List.flatMap_cons]
-        have hm : mergeF pl nR [] (lk, lrows) = if pl then lrows.map (· ++ nulls nR) else [] := by
-          simp [mergeF, lookupG]
+        have hm : mergeF pl nR [] (lk, lrows) = if pl then lrows.map (· ++ nulls nR) else [] :=
+          mergeF_unmatched pl nR [] (lk, lrows) (Or.inr rfl)
         have hR : mergeR pr nL ((lk, lrows) :: ls) [] = mergeR pr nL ls [] := by
           unfold mergeR; cases pr <;> simp
         rw [hm, hR, List.append_assoc]
@@ -1109,36 +887,56 @@ theorem mergeLoop_perm (pl pr : Bool) (nL nR : Nat) :
         simp only [List.flatMap_cons]
         by_cases heq : lk == rk
         · have e : lk = rk := eq_of_beq heq
-          simp only [heq, if_true]
-          have h1 : mergeF pl nR ((rk, rrows) :: rs) (lk, lrows) = crossLR lrows rrows := by
-            unfold mergeF lookupG
-            have : (rk == lk) = true := by rw [e]; exact BEq.rfl
-            simp [List.find?_cons, this]
-          have h2 : ls.flatMap (mergeF pl nR ((rk, rrows) :: rs)) = ls.flatMap (mergeF pl nR rs) := by
-            apply flatMap_congr'
-            intro g hg
-            unfold mergeF
-            rw [lookupG_cons_ne g.1 rk rrows rs (by rw [← e]; exact rowCmp_lt_ne (hlgt g hg))]
-          have h3 : mergeR pr nL ((lk, lrows) :: ls) ((rk, rrows) :: rs) = mergeR pr nL ls rs := by
-            unfold mergeR
-            cases pr
-            · rfl
-            · simp only [if_true, List.filter_cons, List.any_cons, heq, Bool.true_or, Bool.not_true,
-                Bool.false_eq_true, if_false]
-              congr 1
-              apply List.filter_congr
-              intro hh hm
-              have : (lk == hh.1) = false := by rw [e]; exact rowCmp_lt_ne (hrgt hh hm)
-              simp [this]
-          rw [h1, h2, h3, List.append_assoc]
-          exact Perm.append_left _ (ih ls rs hl' hr' (by simp at hf ⊢; omega))
-        · simp only [heq, Bool.false_eq_true, if_false]
+          by_cases hnull : hasNullKey lk
+          · -- equal keys containing NULL: the left group is unmatched, the walk advances on the left
+            simp only [heq, hnull, Bool.not_true, Bool.and_false, Bool.false_eq_true, if_false, Bool.and_self,
+              Bool.or_true, if_true]
+            have h1 : mergeF pl nR ((rk, rrows) :: rs) (lk, lrows) = if pl then lrows.map (· ++ nulls nR) else [] :=
+              mergeF_unmatched pl nR _ (lk, lrows) (Or.inl hnull)
+            have h3 : mergeR pr nL ((lk, lrows) :: ls) ((rk, rrows) :: rs) = mergeR pr nL ls ((rk, rrows) :: rs) := by
+              unfold mergeR
+              cases pr
+              · rfl
+              · simp only [if_true]
+                congr 1
+                apply List.filter_congr
+                intro hh hm
+                rcases List.mem_cons.mp hm with rfl | hm'
+                · have : hasNullKey rk = true := by rw [← e]; exact hnull
+                  simp [this]
+                · have : (lk == hh.1) = false := by rw [e]; exact rowCmp_lt_ne (hrgt hh hm')
+                  simp [List.any_cons, this]
+            rw [h1, h3, List.append_assoc]
+            exact Perm.append_left _ (ih ls ((rk, rrows) :: rs) hl' hr (by simp at hf ⊢; omega))
+          · simp only [heq, hnull, Bool.not_false, Bool.and_self, if_true]
+            have h1 : mergeF pl nR ((rk, rrows) :: rs) (lk, lrows) = crossLR lrows rrows := by
+              unfold mergeF lookupG
+              have : (rk == lk) = true := by rw [e]; exact BEq.rfl
+              simp [hnull, List.find?_cons, this]
+            have h2 : ls.flatMap (mergeF pl nR ((rk, rrows) :: rs)) = ls.flatMap (mergeF pl nR rs) := by
+              apply flatMap_congr'
+              intro g hg
+              exact mergeF_cons_ne pl nR rk rrows rs g (by rw [← e]; exact rowCmp_lt_ne (hlgt g hg))
+            have h3 : mergeR pr nL ((lk, lrows) :: ls) ((rk, rrows) :: rs) = mergeR pr nL ls rs := by
+              unfold mergeR
+              cases pr
+              · rfl
+              · have hrn : hasNullKey rk = false := by rw [← e]; simpa using hnull
+                simp only [if_true, List.filter_cons, List.any_cons, heq, Bool.true_or, Bool.not_true,
+                  hrn, Bool.or_false, Bool.false_eq_true, if_false]
+                congr 1
+                apply List.filter_congr
+                intro hh hm
+                have : (lk == hh.1) = false := by rw [e]; exact rowCmp_lt_ne (hrgt hh hm)
+                simp [this]
+            rw [h1, h2, h3, List.append_assoc]
+            exact Perm.append_left _ (ih ls rs hl' hr' (by simp at hf ⊢; omega))
+        · simp only [heq, Bool.false_and, Bool.false_eq_true, if_false, Bool.or_false]
           cases hc : rowCmp lk rk with
           | lt =>
             simp only [beq_self_eq_true, if_true]
-            have h1 : mergeF pl nR ((rk, rrows) :: rs) (lk, lrows) = if pl then lrows.map (· ++ nulls nR) else [] := by
-              unfold mergeF
-              rw [lookupG_none_of_lt lk rk rrows rs hr hc]
+            have h1 : mergeF pl nR ((rk, rrows) :: rs) (lk, lrows) = if pl then lrows.map (· ++ nulls nR) else [] :=
+              mergeF_unmatched pl nR _ (lk, lrows) (Or.inr (lookupG_none_of_lt lk rk rrows rs hr hc))
             have h3 : mergeR pr nL ((lk, lrows) :: ls) ((rk, rrows) :: rs) = mergeR pr nL ls ((rk, rrows) :: rs) := by
               apply mergeR_congr_left
               intro hh hm
@@ -1161,8 +959,7 @@ theorem mergeLoop_perm (pl pr : Bool) (nL nR : Nat) :
               · exact rowCmp_trans hrk (hlgt g hg')
             have hcong : ∀ g ∈ (lk, lrows) :: ls, mergeF pl nR rs g = mergeF pl nR ((rk, rrows) :: rs) g := by
               intro g hg
-              unfold mergeF
-              rw [lookupG_cons_ne g.1 rk rrows rs (rowCmp_lt_ne (hrklt g hg))]
+              exact (mergeF_cons_ne pl nR rk rrows rs g (rowCmp_lt_ne (hrklt g hg))).symm
             have h2 : ((lk, lrows) :: ls).flatMap (mergeF pl nR rs) =
                 mergeF pl nR ((rk, rrows) :: rs) (lk, lrows) ++ ls.flatMap (mergeF pl nR ((rk, rrows) :: rs)) := by
               rw [List.flatMap_cons, hcong _ List.mem_cons_self]
@@ -1179,57 +976,86 @@ theorem mergeLoop_perm (pl pr : Bool) (nL nR : Nat) :
                   rw [List.any_eq_false]
                   intro g hg
                   simp [rowCmp_lt_ne' (hrklt g hg)]
-                simp only [if_true, List.filter_cons, hnot, Bool.not_false, List.flatMap_cons]
+                simp only [if_true, List.filter_cons, hnot, Bool.not_false, Bool.or_true, List.flatMap_cons]
             have := ih ((lk, lrows) :: ls) rs hl hr' (by simp at hf ⊢; omega)
             rw [h2] at this
             rw [h3]
             refine (Perm.append_left _ this).trans ?_
-            -- P ++ (A ++ B) ~ A ++ (P ++ B)
             exact (perm_append_comm_assoc _ _ _)
           | eq =>
             exact absurd (by rw [(rowCmp_eq_iff lk rk).mp hc]; exact BEq.rfl) heq
 
+/-- right rows that can match key `k` (none when `k` contains a NULL). -/
+def rjk (rk : List (Row → Val)) (R : List Row) (k : List Val) : List Row :=
+  R.filter (fun r => !hasNullKey k && keyOf rk r == k)
 
 theorem mergeF_groups (pl : Bool) (nR : Nat) (lk rk : List (Row → Val)) (L R : List Row) (k : List Val) :
     mergeF pl nR ((dedup (R.map (keyOf rk))).map (fun k => (k, R.filter (fun x => keyOf rk x == k))))
         (k, L.filter (fun x => keyOf lk x == k)) =
-      crossLR (L.filter (fun l => keyOf lk l == k)) (R.filter (fun r => keyOf rk r == k)) ++
-        (if (pl && (R.filter (fun r => keyOf rk r == k)).isEmpty)
-          then (L.filter (fun l => keyOf lk l == k)).map (· ++ nulls nR) else []) := by
-  simp only [mergeF]
-  rw [lookupG_groups]
-  by_cases hc : (R.map (keyOf rk)).contains k
-  · rw [if_pos hc]
-    have hne : (R.filter (fun r => keyOf rk r == k)).isEmpty = false := by
-      rw [List.contains_iff_mem] at hc
-      obtain ⟨r, hr, hrk'⟩ := List.mem_map.mp hc
-      cases hf : R.filter (fun r => keyOf rk r == k) with
-      | nil =>
-        have : r ∈ R.filter (fun r => keyOf rk r == k) := List.mem_filter.mpr ⟨hr, by rw [hrk']; exact BEq.rfl⟩
-        rw [hf] at this; cases this
-      | cons _ _ => rfl
-    simp [hne]
-  · rw [if_neg hc]
-    have : R.filter (fun r => keyOf rk r == k) = [] := by
-      rw [List.filter_eq_nil_iff]
-      intro r hr hrk'
-      apply hc
-      rw [List.contains_iff_mem, ← eq_of_beq hrk']
-      exact List.mem_map_of_mem hr
-    cases pl <;> simp [this, crossLR_nil_right]
+      crossLR (L.filter (fun l => keyOf lk l == k)) (rjk rk R k) ++
+        (if (pl && (rjk rk R k).isEmpty) then (L.filter (fun l => keyOf lk l == k)).map (· ++ nulls nR) else []) := by
+  unfold mergeF rjk
+  cases hn : hasNullKey k
+  · simp only [Bool.false_eq_true, if_false, Bool.not_false, Bool.true_and]
+    rw [lookupG_groups]
+    by_cases hc : (R.map (keyOf rk)).contains k
+    · rw [if_pos hc]
+      have hne : (R.filter (fun r => keyOf rk r == k)).isEmpty = false := by
+        rw [List.contains_iff_mem] at hc
+        obtain ⟨r, hr, hrk'⟩ := List.mem_map.mp hc
+        cases hf : R.filter (fun r => keyOf rk r == k) with
+        | nil =>
+          have : r ∈ R.filter (fun r => keyOf rk r == k) := List.mem_filter.mpr ⟨hr, by rw [hrk']; exact BEq.rfl⟩
+          rw [hf] at this; cases this
+        | cons _ _ => rfl
+      simp [hne]
+    · rw [if_neg hc]
+      have : R.filter (fun r => keyOf rk r == k) = [] := by
+        rw [List.filter_eq_nil_iff]
+        intro r hr hrk'
+        apply hc
+        rw [List.contains_iff_mem, ← eq_of_beq hrk']
+        exact List.mem_map_of_mem hr
+      cases pl <;> simp [this, crossLR_nil_right]
+  · have hnil : R.filter (fun r => false && keyOf rk r == k) = [] := by
+      rw [List.filter_eq_nil_iff]; intro r _; simp
+    simp only [if_true, Bool.not_true, hnil, crossLR_nil_right, List.nil_append, List.isEmpty_nil, Bool.and_true]
 
-/-- merge join over sorted inputs, all four types, as a bag in terms of the input rows: the
-structural inner join, the padded left rows without partner (left/full), the padded right rows
-without partner (right/full). -/
+theorem regroup_inner (lk rk : List (Row → Val)) (L R : List Row) :
+    ((dedup (L.map (keyOf lk))).flatMap (fun k =>
+        crossLR (L.filter (fun l => keyOf lk l == k)) (rjk rk R k))).Perm
+      (L.flatMap (fun l => (R.filter (jk lk rk l)).map (l ++ ·))) := by
+  have hg := group_perm (keyOf lk) L
+  refine Perm.trans (Perm.of_eq ?_) (Perm.flatMap_right
+    (fun l => (R.filter (jk lk rk l)).map (l ++ ·)) hg)
+  rw [List.flatMap_assoc]
+  apply flatMap_congr'
+  intro k _
+  unfold crossLR
+  apply flatMap_congr'
+  intro l hl
+  have hkl : keyOf lk l = k := eq_of_beq (List.mem_filter.mp hl).2
+  congr 1
+  unfold rjk
+  apply List.filter_congr
+  intro r _
+  unfold jk
+  rw [hkl, beq_comm' k]
+
+theorem rjk_of_key (lk rk : List (Row → Val)) (R : List Row) (l : Row) :
+    rjk rk R (keyOf lk l) = R.filter (jk lk rk l) := by
+  unfold rjk
+  apply List.filter_congr
+  intro r _
+  unfold jk
+  rw [beq_comm' (keyOf rk r)]
+
+/-- merge join over sorted inputs, all four types, NO other hypothesis: the canonical bag. -/
 theorem mergejoin_sorted_perm (t : JoinType) (lk rk : List (Row → Val)) (hlk : lk ≠ []) (hrk : rk ≠ []) (nL nR : Nat)
     (Ls Rs : List Chunk)
     (hsl : SortedBy rowCmp ((flat Ls).map (keyOf lk))) (hsr : SortedBy rowCmp ((flat Rs).map (keyOf rk))) :
     (flat (mergeJoin t lk rk nL nR Ls Rs)).Perm
-      ((flat Ls).flatMap (fun l => ((flat Rs).filter (fun r => keyOf lk l == keyOf rk r)).map (l ++ ·)) ++
-       (if (t == .leftOuter || t == .fullOuter) then
-          ((flat Ls).filter (fun l => ((flat Rs).filter (fun r => keyOf lk l == keyOf rk r)).isEmpty)).map (· ++ nulls nR) else []) ++
-       (if (t == .rightOuter || t == .fullOuter) then
-          ((flat Rs).filter (fun r => ((flat Ls).filter (fun l => keyOf lk l == keyOf rk r)).isEmpty)).map (nulls nL ++ ·) else [])) := by
+      (joinBag (t == .leftOuter || t == .fullOuter) (t == .rightOuter || t == .fullOuter) lk rk nL nR (flat Ls) (flat Rs)) := by
   unfold mergeJoin
   generalize hpl : (t == .leftOuter || t == .fullOuter) = pl
   generalize hpr : (t == .rightOuter || t == .fullOuter) = pr
@@ -1237,18 +1063,19 @@ theorem mergejoin_sorted_perm (t : JoinType) (lk rk : List (Row → Val)) (hlk :
   rw [flat_emit, mergejoin_groups_sorted lk hlk _ hsl, mergejoin_groups_sorted rk hrk _ hsr]
   refine (mergeLoop_perm pl pr nL nR _ _ _ (strictInc_groups _ _ _ hsl) (strictInc_groups _ _ _ hsr) (Nat.le_succ _)).trans ?_
   rw [List.flatMap_map]
+  unfold joinBag
   -- left part
   have hleft : ((dedup ((flat Ls).map (keyOf lk))).flatMap
         ((mergeF pl nR ((dedup ((flat Rs).map (keyOf rk))).map (fun k => (k, (flat Rs).filter (fun x => keyOf rk x == k))))) ∘
           fun k => (k, (flat Ls).filter (fun x => keyOf lk x == k)))).Perm
-      ((flat Ls).flatMap (fun l => ((flat Rs).filter (fun r => keyOf lk l == keyOf rk r)).map (l ++ ·)) ++
-       (if pl then ((flat Ls).filter (fun l => ((flat Rs).filter (fun r => keyOf lk l == keyOf rk r)).isEmpty)).map (· ++ nulls nR) else [])) := by
+      ((flat Ls).flatMap (fun l => ((flat Rs).filter (jk lk rk l)).map (l ++ ·)) ++
+       (if pl then ((flat Ls).filter (fun l => ((flat Rs).filter (jk lk rk l)).isEmpty)).map (· ++ nulls nR) else [])) := by
     have hsplit : (dedup ((flat Ls).map (keyOf lk))).flatMap
           ((mergeF pl nR ((dedup ((flat Rs).map (keyOf rk))).map (fun k => (k, (flat Rs).filter (fun x => keyOf rk x == k))))) ∘
             fun k => (k, (flat Ls).filter (fun x => keyOf lk x == k))) =
         (dedup ((flat Ls).map (keyOf lk))).flatMap (fun k =>
-          crossLR ((flat Ls).filter (fun l => keyOf lk l == k)) ((flat Rs).filter (fun r => keyOf rk r == k)) ++
-          (if (pl && ((flat Rs).filter (fun r => keyOf rk r == k)).isEmpty)
+          crossLR ((flat Ls).filter (fun l => keyOf lk l == k)) (rjk rk (flat Rs) k) ++
+          (if (pl && (rjk rk (flat Rs) k).isEmpty)
             then ((flat Ls).filter (fun l => keyOf lk l == k)).map (· ++ nulls nR) else [])) := by
       apply flatMap_congr'
       intro k _
@@ -1260,46 +1087,59 @@ theorem mergejoin_sorted_perm (t : JoinType) (lk rk : List (Row → Val)) (hlk :
     cases pl
     · simp
     · simp only [Bool.true_and, if_true]
-      have e2 := flatMap_ite_filter (fun k => ((flat Rs).filter (fun r => keyOf rk r == k)).isEmpty)
+      have e2 := flatMap_ite_filter (fun k => (rjk rk (flat Rs) k).isEmpty)
         (fun k => ((flat Ls).filter (fun l => keyOf lk l == k)).map (· ++ nulls nR)) (dedup ((flat Ls).map (keyOf lk)))
       refine (Perm.of_eq e2).trans ?_
       rw [← List.map_flatMap]
-      refine (Perm.map _ (group_perm_filter (keyOf lk) (fun k => ((flat Rs).filter (fun r => keyOf rk r == k)).isEmpty) (flat Ls))).trans (Perm.of_eq ?_)
+      refine (Perm.map _ (group_perm_filter (keyOf lk) (fun k => (rjk rk (flat Rs) k).isEmpty) (flat Ls))).trans (Perm.of_eq ?_)
       congr 1
       apply List.filter_congr
       intro l _
-      congr 1
-      apply List.filter_congr
-      intro r _
-      rw [beq_comm']
+      rw [rjk_of_key]
   -- right part
   have hright : (mergeR pr nL ((dedup ((flat Ls).map (keyOf lk))).map (fun k => (k, (flat Ls).filter (fun x => keyOf lk x == k))))
         ((dedup ((flat Rs).map (keyOf rk))).map (fun k => (k, (flat Rs).filter (fun x => keyOf rk x == k))))).Perm
-      (if pr then ((flat Rs).filter (fun r => ((flat Ls).filter (fun l => keyOf lk l == keyOf rk r)).isEmpty)).map (nulls nL ++ ·) else []) := by
+      (if pr then ((flat Rs).filter (fun r => ((flat Ls).filter (fun l => jk lk rk l r)).isEmpty)).map (nulls nL ++ ·) else []) := by
     unfold mergeR
     cases pr
     · simp
     · simp only [if_true]
       rw [List.filter_map, List.flatMap_map]
-      have hq : ∀ k : List Val, (!(((dedup ((flat Ls).map (keyOf lk))).map (fun k => (k, (flat Ls).filter (fun x => keyOf lk x == k)))).any
-            (fun g => g.1 == k))) = ((flat Ls).filter (fun l => keyOf lk l == k)).isEmpty := by
+      have hq : ∀ k : List Val, (hasNullKey k || !(((dedup ((flat Ls).map (keyOf lk))).map (fun k => (k, (flat Ls).filter (fun x => keyOf lk x == k)))).any
+            (fun g => g.1 == k))) = ((flat Ls).filter (fun l => !hasNullKey (keyOf lk l) && keyOf lk l == k)).isEmpty := by
         intro k
-        rw [filter_isEmpty_eq_not_any]
-        congr 1
-        rw [List.any_map]
-        rw [Bool.eq_iff_iff, List.any_eq_true, List.any_eq_true]
-        constructor
-        · rintro ⟨d, hd, hdk⟩
-          have hm := (mem_dedup _ d).mp hd
-          obtain ⟨l, hl, rfl⟩ := List.mem_map.mp hm
-          exact ⟨l, hl, hdk⟩
-        · rintro ⟨l, hl, hlk'⟩
-          exact ⟨keyOf lk l, (mem_dedup _ _).mpr (List.mem_map_of_mem hl), hlk'⟩
+        have hany : (((dedup ((flat Ls).map (keyOf lk))).map (fun k => (k, (flat Ls).filter (fun x => keyOf lk x == k)))).any
+            (fun g => g.1 == k)) = (flat Ls).any (fun l => keyOf lk l == k) := by
+          rw [List.any_map]
+          rw [Bool.eq_iff_iff, List.any_eq_true, List.any_eq_true]
+          constructor
+          · rintro ⟨d, hd, hdk⟩
+            have hm := (mem_dedup _ d).mp hd
+            obtain ⟨l, hl, rfl⟩ := List.mem_map.mp hm
+            exact ⟨l, hl, hdk⟩
+          · rintro ⟨l, hl, hlk'⟩
+            exact ⟨keyOf lk l, (mem_dedup _ _).mpr (List.mem_map_of_mem hl), hlk'⟩
+        rw [hany, filter_isEmpty_eq_not_any]
+        cases hn : hasNullKey k
+        · simp only [Bool.false_or]
+          congr 1
+          apply any_congr'
+          intro l _
+          cases h : keyOf lk l == k
+          · simp
+          · rw [hasNull_of_beq h, hn]; rfl
+        · simp only [Bool.true_or]
+          symm
+          rw [Bool.not_eq_true', List.any_eq_false]
+          intro l _
+          cases h : keyOf lk l == k
+          · simp
+          · rw [hasNull_of_beq h, hn]; simp
       have e3 : ((dedup ((flat Rs).map (keyOf rk))).filter
-            ((fun h : KGroup => !(((dedup ((flat Ls).map (keyOf lk))).map (fun k => (k, (flat Ls).filter (fun x => keyOf lk x == k)))).any
+            ((fun h : KGroup => hasNullKey h.1 || !(((dedup ((flat Ls).map (keyOf lk))).map (fun k => (k, (flat Ls).filter (fun x => keyOf lk x == k)))).any
               (fun g => g.1 == h.1))) ∘ fun k => (k, (flat Rs).filter (fun x => keyOf rk x == k)))).flatMap
             ((fun h : KGroup => h.2.map (nulls nL ++ ·)) ∘ fun k => (k, (flat Rs).filter (fun x => keyOf rk x == k))) =
-          (((dedup ((flat Rs).map (keyOf rk))).filter (fun k => ((flat Ls).filter (fun l => keyOf lk l == k)).isEmpty)).flatMap
+          (((dedup ((flat Rs).map (keyOf rk))).filter (fun k => ((flat Ls).filter (fun l => !hasNullKey (keyOf lk l) && keyOf lk l == k)).isEmpty)).flatMap
             (fun k => (flat Rs).filter (fun x => keyOf rk x == k))).map (nulls nL ++ ·) := by
         rw [List.map_flatMap]
         congr 1
@@ -1308,45 +1148,27 @@ theorem mergejoin_sorted_perm (t : JoinType) (lk rk : List (Row → Val)) (hlk :
         simp only [Function.comp]
         exact hq k
       refine (Perm.of_eq e3).trans ?_
-      exact Perm.map _ (group_perm_filter (keyOf rk) (fun k => ((flat Ls).filter (fun l => keyOf lk l == k)).isEmpty) (flat Rs))
+      exact Perm.map _ (group_perm_filter (keyOf rk) (fun k => ((flat Ls).filter (fun l => !hasNullKey (keyOf lk l) && keyOf lk l == k)).isEmpty) (flat Rs))
   rw [List.append_assoc]
   exact (Perm.append hleft hright).trans (Perm.of_eq (by rw [List.append_assoc]))
 
-/-- what the hash join returns, all four types, in the same terms (no hypothesis). -/
-theorem hashjoin_perm (t : JoinType) (ht : t = .inner ∨ t = .leftOuter ∨ t = .rightOuter ∨ t = .fullOuter)
-    (lk rk : List (Row → Val)) (nL nR : Nat) (Ls Rs : List Chunk) :
-    (flat (hashJoin t lk rk nL nR Ls Rs)).Perm
-      ((flat Ls).flatMap (fun l => ((flat Rs).filter (fun r => keyOf lk l == keyOf rk r)).map (l ++ ·)) ++
-       (if (t == .leftOuter || t == .fullOuter) then
-          ((flat Ls).filter (fun l => ((flat Rs).filter (fun r => keyOf lk l == keyOf rk r)).isEmpty)).map (· ++ nulls nR) else []) ++
-       (if (t == .rightOuter || t == .fullOuter) then
-          ((flat Rs).filter (fun r => ((flat Ls).filter (fun l => keyOf lk l == keyOf rk r)).isEmpty)).map (nulls nL ++ ·) else [])) := by
-  unfold hashJoin
-  generalize hpl : (t == .leftOuter || t == .fullOuter) = pl
-  generalize hpr : (t == .rightOuter || t == .fullOuter) = pr
-  simp only []
-  rw [flat_emit]
-  have h1 := probe_out_perm pr lk rk nL (flat Ls) (flat Rs)
-  have h2 : (if pl then
-        (((hjProbe pr rk nL (flat Rs) (hmBuild lk (flat Ls))).1).filter (fun e => !e.matched)).flatMap
-          (fun e => e.rows.map (· ++ nulls nR)) else []).Perm
-      (if pl then ((flat Ls).filter (fun l => ((flat Rs).filter (fun r => keyOf lk l == keyOf rk r)).isEmpty)).map (· ++ nulls nR) else []) := by
-    cases pl
-    · simp
-    · simp only [if_true]; exact hashjoin_rest_perm pr lk rk nL nR (flat Ls) (flat Rs)
-  refine (Perm.append h1 h2).trans ?_
-  -- (A ++ R) ++ Lp ~ (A ++ Lp) ++ R
-  simp only [List.append_assoc]
-  exact Perm.append_left _ perm_append_comm
-
 /-- `merge_eq_hash`, all four join types: on inputs sorted by their (non-empty) key lists the merge
-join and the hash join return the same bag — for every data, NULL and mixed-width keys included. -/
-theorem merge_eq_hash (t : JoinType) (ht : t = .inner ∨ t = .leftOuter ∨ t = .rightOuter ∨ t = .fullOuter)
-    (lk rk : List (Row → Val)) (hlk : lk ≠ []) (hrk : rk ≠ []) (nL nR : Nat) (Ls Rs : List Chunk)
+join and the hash join return the same bag — for every data (NULL keys are unmatched in both,
+mixed-width keys are unequal in both). -/
+theorem merge_eq_hash (t : JoinType) (lk rk : List (Row → Val)) (hlk : lk ≠ []) (hrk : rk ≠ []) (nL nR : Nat)
+    (Ls Rs : List Chunk)
     (hsl : SortedBy rowCmp ((flat Ls).map (keyOf lk))) (hsr : SortedBy rowCmp ((flat Rs).map (keyOf rk))) :
     (flat (mergeJoin t lk rk nL nR Ls Rs)).Perm (flat (hashJoin t lk rk nL nR Ls Rs)) :=
-  (mergejoin_sorted_perm t lk rk hlk hrk nL nR Ls Rs hsl hsr).trans (hashjoin_perm t ht lk rk nL nR Ls Rs).symm
+  (mergejoin_sorted_perm t lk rk hlk hrk nL nR Ls Rs hsl hsr).trans (hashjoin_perm t lk rk nL nR Ls Rs).symm
 
+/-- hence merge join = spec under KeysComparable as well. -/
+theorem merge_eq_spec (t : JoinType) (ht : t = .inner ∨ t = .leftOuter ∨ t = .rightOuter ∨ t = .fullOuter)
+    (lk rk : List (Row → Val)) (hlk : lk ≠ []) (hrk : rk ≠ []) (nL nR : Nat) (Ls Rs : List Chunk)
+    (hsl : SortedBy rowCmp ((flat Ls).map (keyOf lk))) (hsr : SortedBy rowCmp ((flat Rs).map (keyOf rk)))
+    (hlen : ∀ l ∈ flat Ls, l.length = nL) (hk : KeysComparable lk rk (flat Ls) (flat Rs)) :
+    (flat (mergeJoin t lk rk nL nR Ls Rs)).Perm
+      (joinRel t (equiOn nL lk rk (fun _ => some true)) nL nR (flat Ls) (flat Rs)) :=
+  (mergejoin_sorted_perm t lk rk hlk hrk nL nR Ls Rs hsl hsr).trans (joinBag_eq_spec t ht lk rk nL nR _ _ hlen hk)
 
 /-! ## hash semi / anti join with residual condition -/
 
@@ -1385,11 +1207,27 @@ theorem hash_semi2_eq_nl (anti : Bool) (lk rk : List (Row → Val)) (cond : Pred
   apply List.filter_congr
   intro l hl
   congr 1
-  rw [any_filter', any_flat]
-  unfold flat
-  apply any_congr'
-  intro r hr
-  rw [equiOn_split_resid nL lk rk cond l r (hlen l hl), ← hk l hl r hr, beq_comm']
+  rw [any_flat]
+  have hR : (flat Rs).any (fun r => holds (equiOn nL lk rk cond (l ++ r))) =
+      (flat Rs).any (fun r => jkEq (keyOf lk l) (keyOf rk r) && holds (cond (l ++ r))) := by
+    apply any_congr'
+    intro r hr
+    rw [equiOn_split_resid nL lk rk cond l r (hlen l hl), ← hk l hl r hr]
+  unfold flat at hR ⊢
+  rw [hR]
+  cases hn : hasNullKey (keyOf lk l)
+  · simp only [Bool.false_eq_true, if_false]
+    rw [any_filter', any_filter']
+    apply any_congr'
+    intro r _
+    unfold jkEq
+    rw [hn, beq_comm' (keyOf rk r)]
+    simp [Bool.and_assoc]
+  · simp only [if_true, List.any_nil]
+    symm
+    rw [List.any_eq_false]
+    intro r _
+    simp [jkEq, hn]
 
 example : flat (hashSemiJoin2 false [col0] [col0] (fun row => sqlGt (row.getD 1 .null) (.i32 0)) [[[.i32 1], [.i32 2]]] [[[.i32 1]], [[.i32 2]]]) =
     [[.i32 1], [.i32 2]] := by decide
